@@ -285,6 +285,19 @@ func GenPlan(prop string, seed uint64) *Plan {
 	if g.p(0.25) {
 		p.ViewDur = ViewDur{Kind: "dynamic", Ms: pick(g, 40, 100), MaxMs: pick(g, 400, 1000), Mul: pick(g, 1.2, 1.5, 2.0)}
 	}
+	switch prop {
+	case "C01", "C03", "C07", "C09", "C10", "C12", "C13":
+		if g.p(0.12) {
+			// Kauri: tree dissemination and aggregation, the tree root leads every view
+			if p.Knobs == nil {
+				p.Knobs = map[string]int{}
+			}
+			p.Knobs["kauri"] = 1
+			p.Knobs["bf"] = pick(g, 2, 2, 3)
+			p.N = pick(g, 4, 7, 7, 10, 13)
+			p.Leader = "tree-leader"
+		}
+	}
 	p.Batch = pick(g, 1, 1, 2, 3)
 	p.Filler = true
 	p.Queue = 1 << 16 // no overflow: event loss by overflow is the business of C14 (and of the C06 profile)
@@ -302,6 +315,10 @@ func GenPlan(prop string, seed uint64) *Plan {
 		}
 		if p.UntilMs > 12*p.ViewDur.Ms {
 			p.UntilMs = 12 * p.ViewDur.Ms
+		}
+		p.MaxSteps = 4000
+		if p.N > 4 {
+			p.MaxSteps = 2000
 		}
 	}
 	if pr.clients {
@@ -418,8 +435,11 @@ func GenPlan(prop string, seed uint64) *Plan {
 		}
 		for i := 0; i < ni && len(p.Byz) > 0; i++ {
 			from := p.Byz[g.intn(len(p.Byz))].ID
-			p.Inject = append(p.Inject, Inject{AtMs: g.intn(p.UntilMs), From: from, To: g.rng(1, p.N),
-				Kind: pick(g, "propose", "propose", "vote", "newview", "timeout", "timeout", "fetch"), Gen: g.u64()})
+			kind := pick(g, "propose", "propose", "vote", "newview", "timeout", "timeout", "fetch")
+			if p.knob("kauri", 0) == 1 && g.p(0.35) {
+				kind = "contrib"
+			}
+			p.Inject = append(p.Inject, Inject{AtMs: g.intn(p.UntilMs), From: from, To: g.rng(1, p.N), Kind: kind, Gen: g.u64()})
 		}
 	}
 	return p
